@@ -4,3 +4,11 @@ check('C12', 'exploration',
       'Bounded-exhaustive driving of the real Merkle/MerkleCache with an independent recursive definition as oracle: every list length up to the bound x every index, every power-of-two boundary up to 2^62, random cache initialise/extend/truncate/query sequences compared with from-scratch results. Right level: the component is pure and small, so the monitor can see every (length,index) up to the bound.',
       'hashlib SHA-256; lengths beyond the bound are not observed',
       'reference-model oracle on bounded-exhaustive executions of the real functions', 'DESIGN.md section 4 C12')
+check('C13', 'exploration',
+      'The real Deserializer/Tx.serialize and the real OnDiskBlock.iter_txs/iter_txs_reversed are executed on generated transactions (varint-width boundaries, every strict prefix) and on real block files for every chunk size from 9 bytes to beyond the block size; the oracle is the generator\'s own construction data. Every alignment of tx boundaries to chunk boundaries up to the bound is actually executed, which a handful of unit-test inputs cannot do.',
+      'generator serialiser is ground truth; chunk sizes < 9 bytes excluded; blocks above the size bound are sampled, not exhausted',
+      'differential oracle (construction data) over bounded-exhaustive chunk sizes and truncation points of the real parser', 'DESIGN.md section 4 C13')
+check('C20', 'exploration',
+      'All call sequences the surrounding system permits up to length 6 (quick) / 7 (thorough) are executed on the real Notifications object (DFS with state copies, unique token per hand-over) under an online monitor for both clauses; plus random long words. The component is small and loop-owned, so bounded-exhaustive monitoring of the real object is the strongest runtime evidence available.',
+      'environment model of permitted sequences (validated against real traces in the C07 runs); start-up counts for clause (a) only; join rule evaluated for tokens handed over at or before the earlier of the two latest reports',
+      'online trace monitor (conservation + ordering) on bounded-exhaustive executions of the real object', 'DESIGN.md section 4 C20')
